@@ -240,23 +240,23 @@ def _function_body(src, name):
 
 
 def _const(expr):
-    """integer constant expression made of integer / character literals, + - and one level of casts"""
-    e = re.sub(r"\(\s*(?:int|char|uint8_t|unsigned char|size_t)\s*\)", "", expr.strip())
-    toks = re.findall(r"'(?:\\.|[^\\'])'|0[xX][0-9a-fA-F]+|\d+|[+\-]|\S", e)
-    val, sign, expect_num = 0, 1, True
+    """integer constant expression made of integer / character literals, + - << and parentheses (casts are dropped)"""
+    e = re.sub(r"\(\s*(?:int|char|uint8_t|uint32_t|unsigned char|unsigned|size_t)\s*\)", "", expr.strip())
+    toks = re.findall(r"'(?:\\.|[^\\'])'|0[xX][0-9a-fA-F]+[uUlL]*|\d+[uUlL]*|<<|[+\-()]|\S", e)
+    out = []
     for tk in toks:
-        if tk in "+-" and not expect_num:
-            sign = 1 if tk == "+" else -1
-            expect_num = True
-        elif expect_num and tk not in "+-":
+        if tk in ("+", "-", "<<", "(", ")"):
+            out.append(tk)
+        else:
             try:
-                val += sign * _c_int(tk)
+                out.append(str(_c_int(tk)))
             except core.GenError:
                 raise core.GenError("encoding_avx2.c: constant expression not understood: %r" % expr)
-            expect_num = False
-        else:
-            raise core.GenError("encoding_avx2.c: constant expression not understood: %r" % expr)
-    if expect_num:
+    try:
+        val = eval(" ".join(out), {"__builtins__": {}}, {})
+    except Exception:
+        raise core.GenError("encoding_avx2.c: constant expression not understood: %r" % expr)
+    if not isinstance(val, int) or val < 0:
         raise core.GenError("encoding_avx2.c: constant expression not understood: %r" % expr)
     return val
 
@@ -317,6 +317,34 @@ def parse_avx2():
         c[key + "_shuf32"] = list(reversed(_int_list(m2.group(1))))     # _mm256_set_epi32 lists element 7 first
         if len(c[key + "_shufvec"]) != 32 or len(c[key + "_shuf32"]) != 8:
             raise core.GenError("encoding_avx2.c: shuffle table of unexpected size")
+    # masks and shift counts of pack_vec / encode_stride
+    def lane_ops(body, fname, names, masks_re, shift_re, or_re):
+        masks = {}
+        for nm in names:
+            m = re.search(masks_re % nm, body)
+            if not m:
+                raise core.GenError(f"encoding_avx2.c: {fname}: mask for {nm} not found")
+            masks[nm] = _const(m.group(1))
+        ops = []
+        for nm in names:
+            m = re.search(shift_re % (nm, nm), body)
+            if not m:
+                raise core.GenError(f"encoding_avx2.c: {fname}: shift of {nm} not in the expected form")
+            ops.append((masks[nm], 1 if m.group(1) == "slli" else 0, _const(m.group(2))))
+        if not re.search(or_re, re.sub(r"\s+", "", body)):
+            raise core.GenError(f"encoding_avx2.c: {fname}: the OR tree combining the four parts no longer has the known shape")
+        return ops
+    c["pack_ops"] = lane_ops(pv, "pack_vec", ["A", "B", "C", "D"],
+                             r"mask%s\s*=\s*_mm256_set1_epi32\s*\(((?:[^()]|\([^()]*\))*)\)\s*;",
+                             r"bits%s\s*=\s*_mm256_(slli|srli)_epi32\s*\(\s*_mm256_and_si256\s*\(\s*in\s*,\s*mask%s\s*\)\s*,\s*([^()]*)\)\s*;",
+                             r"_mm256_or_si256\(_mm256_or_si256\(bitsA,bitsB\),_mm256_or_si256\(bitsC,bitsD\)\)")
+    for nm in "0123":
+        if not re.search(r"digit%s\s*=\s*_mm256_and_si256\s*\(\s*mask%s\s*,\s*vec\s*\)" % (nm, nm), es):
+            raise core.GenError("encoding_avx2.c: encode_stride: digit%s = and(mask%s, vec) not found" % (nm, nm))
+    c["stride_ops"] = lane_ops(es, "encode_stride", ["0", "1", "2", "3"],
+                               r"mask%s\s*=\s*_mm256_set1_epi32\s*\(((?:[^()]|\([^()]*\))*)\)\s*;",
+                               r"digit%s\s*=\s*_mm256_(slli|srli)_epi32\s*\(\s*digit%s\s*,\s*([^()]*)\)\s*;",
+                               r"_mm256_or_si256\(_mm256_or_si256\(digit0,digit1\),_mm256_or_si256\(digit2,digit3\)\)")
     # driver loops
     dd = _function_body(src, "aws_common_private_base64_decode_sse41")
     m = re.search(r"while\s*\(\s*len\s*(>=|>)\s*([^()]+?)\s*\)", dd)
@@ -341,6 +369,10 @@ def parse_avx2():
         raise core.GenError("encoding_avx2.c: encode padding stores not in the expected form")
     c["enc_pad"] = _const(pads[0][1])
     for k, v in c.items():
+        if k in ("pack_ops", "stride_ops"):
+            if any(m >= 1 << 32 or n >= 32 for m, _, n in v):
+                raise core.GenError(f"encoding_avx2.c: {k}: mask / shift outside a 32-bit lane")
+            continue
         for x in (v if isinstance(v, list) else [v]):
             for y in (x if isinstance(x, tuple) else (x,)):
                 if not 0 <= y <= 255:
@@ -367,6 +399,10 @@ def regen_avx2():
             f"def decShufvec : List Nat := {lst(c['dec_shufvec'])}\ndef decShuf32 : List Nat := {lst(c['dec_shuf32'])}\n"
             "/-- encode_stride: `shufvec_buf` in memory order, `shuf32` with element 0 first -/\n"
             f"def encShufvec : List Nat := {lst(c['enc_shufvec'])}\ndef encShuf32 : List Nat := {lst(c['enc_shuf32'])}\n"
+            "/-- pack_vec: for bitsA..bitsD `(mask, 1 = slli / 0 = srli, count)`; combined as (A|B)|(C|D) -/\n"
+            f"def packOps : List (Nat × Nat × Nat) := {trip(c['pack_ops'])}\n"
+            "/-- encode_stride: for digit0..digit3 `(mask, 1 = slli / 0 = srli, count)`; combined as (0|1)|(2|3) -/\n"
+            f"def strideOps : List (Nat × Nat × Nat) := {trip(c['stride_ops'])}\n"
             "/-- aws_common_private_base64_decode_sse41: smallest `len` for which the vector loop runs, the fill character of tmp_in,\n"
             "how many trailing padding characters are stripped, the padding character and what replaces it -/\n"
             f"def decLoopMin : Nat := {c['dec_loop_min']}\ndef decFill : Nat := {c['dec_fill']}\ndef decStripMax : Nat := {c['dec_strip_max']}\n"
